@@ -277,10 +277,37 @@ def run_forms(c):
 
 
 # ------------------------------------------------------------------ (c) core functions
-def run_core(c):
-    import magpylib as magpy
-    from magpylib import core
+class CoreProxy:
+    """wraps magpylib.core: every call is made twice with the very same argument objects; records whether an input
+    array was modified in place and whether the second result differs from the first"""
 
+    def __init__(self, mod):
+        self._mod = mod
+        self.mutated, self.second_differs = [], []
+
+    def __getattr__(self, name):
+        fn = getattr(self._mod, name)
+
+        def wrapper(**kw):
+            before = {k: np.array(v, copy=True) for k, v in kw.items() if isinstance(v, np.ndarray)}
+            out = fn(**kw)
+            first = np.array(out, copy=True)
+            for k, b in before.items():
+                if kw[k].shape != b.shape or not np.array_equal(kw[k], b, equal_nan=True):
+                    self.mutated.append(f"{name}:{k}")
+            out2 = fn(**kw)
+            if not np.array_equal(np.asarray(out2), first, equal_nan=True):
+                self.second_differs.append(name)
+            return first
+
+        return wrapper
+
+
+def run_core(c, probe=None):
+    import magpylib as magpy
+    from magpylib import core as _core
+
+    core = probe if probe is not None else CoreProxy(_core)
     name = c["core"]
     n = 4
     obs = np.array([observer(i) for i in range(n)])
@@ -358,6 +385,8 @@ def run_core(c):
     # full rings: the object interface uses the difference of two Cylinders, the core the 26-case segment formulas whose
     # elliptic routines stop at ~1e-9: two algorithms, compared at 1e-8 (a wrong body shows at O(1))
     tol = 1e-8 if name == "magnet_cylinder_segment_Hfield" else RTOL
+    if core.second_differs:
+        return f"second identical call of the core function differs: {core.second_differs}"
     return None if err <= tol else f"values differ rel={err:.3g}"
 
 
